@@ -513,6 +513,9 @@ def run(ctx):
     _il11.import_module("rules.c15").const_slot_shared_by_size(db, rep, "D11-CONST-SLOT-BY-SIZE")
     reader_constructors_name_blind(db, rep)
     d13_set_lookup_stateless(db, rep)
+    # D14: an instruction is serialised as (insn->opcode - sys->opcodes) + 32: only an entry of the sys table has an index.  A name
+    # that sys has must therefore resolve to the sys entry even when an application set carries the same name (shared with C20 D4)
+    _il11.import_module("rules.c20").d4_builtin_first(db, rep, "D14-SYS-NAME-WINS")
 
     if ctx.tier == "thorough":
         d5(ctx, rep)
